@@ -2,10 +2,11 @@
 """usage: add_finding.py PROP SIGNATURE known|fixed REPLAY_FILE WHAT [--commit HASH] [--why TEXT]   (edits known_findings.json; never called by a check)"""
 import json, sys, argparse
 ap = argparse.ArgumentParser(); ap.add_argument("prop"); ap.add_argument("sig"); ap.add_argument("status"); ap.add_argument("replay"); ap.add_argument("what")
-ap.add_argument("--commit"); ap.add_argument("--why")
+ap.add_argument("--commit"); ap.add_argument("--why"); ap.add_argument("--append", action="store_true", help="keep existing entries of this signature (second history with the same symptom)")
 a = ap.parse_args()
 p = "/verif/known_findings.json"; k = json.load(open(p))
-k["findings"] = [f for f in k["findings"] if not (f["property"] == a.prop and f["signature"] == a.sig)]
+if not a.append:
+    k["findings"] = [f for f in k["findings"] if not (f["property"] == a.prop and f["signature"] == a.sig)]
 e = {"property": a.prop, "signature": a.sig, "status": a.status}
 if a.status == "fixed":
     assert a.commit; e["commit"] = a.commit; e["line"] = "fixed: property=%s %s %s" % (a.prop, a.commit, a.what)
